@@ -60,6 +60,7 @@ class HelpersContent:
         self.repo = repo
         self.path = os.path.join(repo, HC)
         self.items = parse_file(self.path)
+        self.src = open(self.path, encoding='utf-8').read()
         self.file = HC
 
     # ------------------------------------------------------------------------------------ error
